@@ -37,7 +37,7 @@ def _unbatch(a, n, B):
 
 
 def check_linear(res, cfg, facts, in_specs, impl, ref, tau_rel=1e-9, allowed_raise=None, raise_is_skip=False,
-                 validate_tol=1e-10, max_sat=3, timeout_ms=10000, what='output', real_pw=None, sym_pw=None, seed=1):
+                 validate_tol=1e-10, max_sat=3, timeout_ms=10000, what='output', real_pw=None, sym_pw=None, seed=1, oracle_offset=False):
     rt = symtorch.real_torch()
     rng = np.random.default_rng(seed)
     rpw = real_pw or symtorch.real()
@@ -64,7 +64,18 @@ def check_linear(res, cfg, facts, in_specs, impl, ref, tau_rel=1e-9, allowed_rai
         return None
     # ---- oracle -----------------------------------------------------------------------------
     parts, n, B = _basis(in_specs)
-    oo = core.outcome(lambda: ref(parts))
+    if oracle_offset:
+        # the reference package takes value-dependent shortcuts on sparse inputs (dtcwt's colifilt returns zeros when all
+        # non-zeros sit in row 0): probe it with dense inputs u + e_i and subtract its response to u
+        us = [rng.uniform(0.5, 1.5, size=s) for _, s in in_specs]
+
+        def _ref_rows():
+            shifted = [p + np.tile(u, (n,) + (1,) * (u.ndim - 1)) for p, u in zip(parts, us)]
+            a = ref(shifted); b0 = ref(us)
+            return [None if x is None else x - np.tile(y, (n,) + (1,) * (y.ndim - 1)) for x, y in zip(a, b0)]
+        oo = core.outcome(_ref_rows)
+    else:
+        oo = core.outcome(lambda: ref(parts))
     if oo[0] != 'ok':
         res.status = 'skipped'; res.notes.append('oracle raised %s: %s' % (oo[1], oo[2][:100]))
         return None
